@@ -281,6 +281,46 @@ def dropsSGroupMember (a b : Vsys) : Cmd → Bool
   | .delSvc x => (sgroupDropped a b).any (fun p => p.2.contains x)
   | _ => false
 
+/-- Members a member-list request brings in. -/
+def addedBy' : Cmd → List String
+  | .addMem _ _ ms => ms
+  | .editList _ _ ms => ms
+  | _ => []
+
+/-- Names a request on a member list of a rule involves: what the list holds now and what the
+request brings in. -/
+def fieldNames (v : Vsys) : Cmd → Option (List String)
+  | .delMem n f m => if f != .srv then (findRule v.rules n).map (fun r => m :: r.get f) else none
+  | .addMem n f ms => if f != .srv then (findRule v.rules n).map (fun r => ms ++ r.get f) else none
+  | .editList n f ms => if f != .srv then (findRule v.rules n).map (fun r => ms ++ r.get f) else none
+  | _ => none
+
+/-- The requests of plan `p` that are confined to the lists of `v` mixing a group with other
+members and to what hangs on them (class of F-C03e): a request on a mixed list; a request on an
+address-group that stands in a mixed list (or is put into one); a request on a list that names
+such a group — which makes the other groups it names hang on the mixed lists too.  Per request:
+is it confined?  And: is there a request on a mixed list at all? -/
+def mixedClosure (v : Vsys) (p : List Cmd) : List Bool × Bool :=
+  let isG := fun (m : String) => v.groups.any (·.name == m) || p.any (fun c => match c with
+    | .setGrp g _ => g == m | _ => false)
+  let seed := ((v.rules.flatMap (fun r => [r.src, r.dst])).filter (mixedList v)).flatten ++
+    p.flatMap (fun c => if onMixedField v c then (fieldNames v c).getD [] else [])
+  let step := fun (gs : List String) =>
+    p.foldl (fun gs c =>
+      match fieldNames v c with
+      | some ns => if ns.any (fun m => isG m && gs.contains m) then gs ++ ns.filter isG else gs
+      | none => gs) gs
+  let gs := (List.range (p.length + 1)).foldl (fun gs _ => step gs) (seed.filter isG)
+  let ok := fun (c : Cmd) =>
+    onMixedField v c ||
+    (match c with
+     | .setGrp g _ | .delGMem g _ | .delGrp g => gs.contains g
+     | _ => false) ||
+    (match fieldNames v c with
+     | some ns => ns.any (fun m => isG m && gs.contains m)
+     | none => false)
+  (p.map ok, p.any (onMixedField v) || !(seed.filter isG).isEmpty)
+
 def answerPredict (shared a b : String) : String :=
   match parseVsys a, parseVsys b with
   | some va, some vb =>
@@ -294,10 +334,14 @@ def answerPredict (shared a b : String) : String :=
     -- shape of a plan `p` for device state `v`: only requests on mixed lists / only re-sent changed
     -- service-groups / only these two kinds with at least one of the first
     let shape := fun (v : Vsys) (p : List Cmd) =>
-      let mix := !p.isEmpty && p.all (onMixedField v)
-      let sg := !p.isEmpty && p.all (onChangedSGroup va vb)
-      let both := !p.isEmpty && p.all (fun c => onMixedField v c || onChangedSGroup va vb c) && p.any (onMixedField v)
-      s!"{b2s mix}{b2s sg}{b2s both}"
+      let (mix, mixAny) := mixedClosure v p
+      let rem := fun (c : Cmd) => match c with
+        | .delSvc _ | .delAddr _ | .delGrp _ | .delSGrp _ => true
+        | _ => false
+      let sgc := fun c => onChangedSGroup va vb c || dropsSGroupMember va vb c || rem c
+      let sg := !p.isEmpty && p.all sgc && p.any (onChangedSGroup va vb)
+      let both := !p.isEmpty && mixAny && (p.zip mix).all (fun (c, ok) => ok || sgc c)
+      s!"{b2s (!p.isEmpty && mix.all id)}{b2s sg}{b2s both}"
     s!"n={cmds.length} accepted={k} err={(e.map enc).getD "-"} equiv={b2s eqv} mismatch={mismatch w vb w.rules vb.rules} " ++
     s!"wf={b2s (wellFormed sh w)} sgdropref={b2s ((refused.map (·.2)).getD false)} shape1={shape va cmds} shape2={shape w p2}" ++
     s!"\t{(refused.map (·.1)).getD "-"}\t{showCmds cmds}\t{p2s}"
